@@ -161,7 +161,7 @@ def runOpTransform (op : String) (args : List String) : String :=
       let others := fun (free : Tree → Bool) => okIf (Spec.parentsKept a b free) "other-node-moved"
       match c.name with
       | "punctuation_verylow" => firstFail [okIf (Spec.WF b) "not-well-formed", okIf (Spec.contentKept a b) "content-changed",
-          okIf (Spec.verylowPostP b) "punctuation-not-beside-left-neighbour",
+          okIf (Spec.verylowPostT b) "punctuation-not-beside-left-neighbour",
           others (fun s => s.isLeaf && Spec.isPunctWordP s)]
       | "punctuation_root" => firstFail [okIf (Spec.WF b) "not-well-formed", okIf (Spec.contentKept a b) "content-changed",
           okIf (Spec.rootPostP b) "punctuation-not-at-root",
@@ -225,7 +225,7 @@ def runOpTransform (op : String) (args : List String) : String :=
     | some b =>
       let c := parseTCall call
       match c.name with
-      | "punctuation_verylow" => firstFail [okIf (Spec.WF b) "not-well-formed", okIf (Spec.verylowPostP b) "punctuation-not-beside-left-neighbour"]
+      | "punctuation_verylow" => firstFail [okIf (Spec.WF b) "not-well-formed", okIf (Spec.verylowPostT b) "punctuation-not-beside-left-neighbour"]
       | "punctuation_root" => firstFail [okIf (Spec.WF b) "not-well-formed", okIf (Spec.rootPostP b) "punctuation-not-at-root"]
       | "collapse_unary_chains" => firstFail [okIf (Spec.WFc b) "not-well-formed", okIf (!hasUnary b) "unary-left"]
       | "binarize" => firstFail [okIf (Spec.WF b) "not-well-formed", okIf (maxArity b ≤ 2) "arity-above-two"]
